@@ -148,11 +148,41 @@ def _work(job):
     return out
 
 
+def to_smt2_cover(c, extra_axioms=()):
+    s = z3.Solver()
+    for h in c.hyps:
+        s.add(h)
+    for a in extra_axioms:
+        s.add(a)
+    return s.to_smt2()
+
+
+def _cover_work(job):
+    name, smt = job
+    s = z3.Solver()
+    s.set('timeout', 3000)
+    try:
+        s.from_string(smt)
+        r = str(s.check())
+    except z3.Z3Exception:
+        r = 'error'
+    return dict(name=name, result=r)
+
+
+def check_covers_smt(jobs, procs=16):
+    if not jobs:
+        return []
+    ctx = mp.get_context('fork')
+    with ctx.Pool(min(procs, len(jobs))) as pool:
+        return pool.map(_cover_work, jobs, chunksize=1)
+
+
 def discharge_all(obligations, axioms=(), cross_check=False, procs=None,
                   z3_timeout_ms=None, cvc5_timeout_ms=None):
     jobs = []
     for ob in obligations:
-        jobs.append((ob.name, to_smt2(ob, axioms), cross_check,
+        smt = ob.smt if hasattr(ob, 'smt') else to_smt2(ob, axioms)
+        jobs.append((ob.name, smt, cross_check,
                      z3_timeout_ms or Z3_TIMEOUT_MS,
                      cvc5_timeout_ms or CVC5_TIMEOUT_MS))
     procs = procs or min(16, max(1, len(jobs)))
